@@ -224,6 +224,31 @@ Definition op_cw_writes (args : list sx) : sx :=
   | _ => bad_args
   end.
 
+(* cw_readfrom (chunks) budget mode srcerr : the copy loop of CountingWriter.ReadFrom; one Write per
+   non-empty chunk; the source error is reported only if every write succeeded *)
+(* ReadFrom reads into a 32 KiB buffer: a longer source chunk arrives in pieces *)
+Fixpoint chop32k (fuel : nat) (c : bytes) : list bytes :=
+  match fuel with
+  | O => [c]
+  | S f => match splitN c 32768 with
+           | Some (a, b) => match b with [] => [a] | _ => a :: chop32k f b end
+           | None => [c]
+           end
+  end.
+Definition op_cw_readfrom (args : list sx) : sx :=
+  match args with
+  | [SL cs; SZ budget; SZ mode; SZ srcerr] =>
+      match omap as_b cs with
+      | Some chunks =>
+          let '(d, n, ok) := run_writes (flat_map (fun c => chop32k (S (N.to_nat (lenN c / 32768))) c)
+                                                   (filter (fun c => negb (match c with [] => true | _ => false end)) chunks))
+                                        (dest_of budget mode) 0 in
+          SL [SB (d_acc d); sN n; sN n; sbool (ok && (srcerr =? 0)%Z)]
+      | None => bad_args
+      end
+  | _ => bad_args
+  end.
+
 Definition dispatch_bundle (op : bytes) (args : list sx) : option sx :=
   if bytes_eqb op (s2b "bundle_write") then Some (op_bundle_write args)
   else if bytes_eqb op (s2b "bundle_read") then Some (op_bundle_read args)
@@ -234,4 +259,5 @@ Definition dispatch_bundle (op : bytes) (args : list sx) : option sx :=
   else if bytes_eqb op (s2b "variants") then Some (op_variants args)
   else if bytes_eqb op (s2b "urlref") then Some (op_urlref args)
   else if bytes_eqb op (s2b "cw_writes") then Some (op_cw_writes args)
+  else if bytes_eqb op (s2b "cw_readfrom") then Some (op_cw_readfrom args)
   else None.
